@@ -27,7 +27,7 @@ the stated hypothesis H; **judged only** = no theorem, the Lean judge runs on ev
 | 4 | "no caller ever observes a partially written file" | `no_partial`: in every reachable state the file at the library path is complete and nobody ends with `partialLib` | proved; rests on **assumed** atomic `rename(2)` and "`cc` writes only its temp path" |
 | 5 | "if a process dies at any point while compiling" | `crash` is enabled at EVERY non-finished program point (not only while compiling); `Reach`/`execC` place crashes anywhere, any number of them | proved (quantified); **assumed**: a dead process takes no further step and cleans nothing up |
 | 6 | "later loads still succeed" | `recovery_recheck`, `recovery_recheck_failing`, `c19_full_strength` (second part), `liveness_with_crashes`, `progressC_iff` (fair ⇔ the execution becomes quiescent), `completion_exists`; a later loader = a caller whose first step comes late in `σ` | proved for `recheck`; **refuted** for `orig`: `stale_lock_never_recovers`, `crash_while_holding_is_permanent`, `leftover_lock_is_stuck` |
-| 7 | "within bounded time" | `recheck_bounded` (every execution, crashes included, has at most `mu c s` steps), `mu_init` (closed form of the bound for `n` callers), `wait_free`/`bounded_termination` (`orig`: `K + 7` own steps), `no_orphan_lock` | proved; time is abstract (**assumed**: the `K`-th unsuccessful poll = deadline passed; real regimes 0 ms / 10 min / 30 s) |
+| 7 | "within bounded time" | `recheck_bounded` (every execution, crashes included, has at most `mu c s` steps), `mu_init` (closed form of the bound for `n` callers), `wait_free`/`bounded_termination` (`orig`: `K + 7` own steps), `no_orphan_lock` | proved; time is abstract in the transition system; the loader's constants are stated in Timed.lean (`lockTimeoutMs`, `defaultK = 33`, `default_timeout_polls`, `defaultLoadBoundMs`) and `solo_recovery_steps` gives the worst case (`K + 10` own steps); the DEFAULT value is measured by the `default` case of every run, the other cases use 0 ms / 1.5 s / 10 min through the hook |
 | 8 | "and never load a stale or truncated library" | 3 + 4 hold in every reachable state, after any crashes; `safety`'s `loading → Fresh` | proved |
 | 9 | quantifier: "all crash points between those steps, cache states (…leftover lock, leftover temp file), with and without an external scanner" | crash points: 5; cache states: `Init`, `mkInit_is_init`; scanner: `src` is the version of the whole source set, `needsRecompile` ranges over every source | proved (model); real: crash injected at every hook point, all five cache states, scanner on/off × `stalekind` × `gap` |
 
@@ -727,5 +727,55 @@ example :
         (1, .compileFinish), (1, .rename), (1, .unlock), (1, .load)] : List (Nat × Act)).getD i (0, .check)
     ((execC { K := 1, mayFail := false } (mkInit 2 (some ⟨1, true⟩) true 2) σ 19).procs.map (·.pc)) = [.dead, .done (.ok 2)] := by
   decide
+
+/-! ## "Within bounded time", made concrete: one later loader against a stale lock -/
+
+/-- The state of a single waiter that has seen the stale lock `j` times. -/
+def soloWaiting (src : Nat) (j : Nat) : State :=
+  { src, lib := none, lock := some 1, procs := [{ pc := .waiting j, temp := none }] }
+
+theorem run_polls (c : Cfg) (src : Nat) (rest : List (Nat × Act)) : ∀ (d j : Nat), j + d ≤ c.K →
+    run c (soloWaiting src j) (List.replicate d (0, Act.poll) ++ rest) = run c (soloWaiting src (j + d)) rest
+  | 0, j, _ => by simp
+  | d + 1, j, h => by
+    have hlt : j < c.K := by omega
+    have hstep : step c (soloWaiting src j) 0 .poll = some (soloWaiting src (j + 1)) := by
+      simp [step, soloWaiting, State.setProc, hlt]
+    rw [List.replicate_succ, List.cons_append]
+    simp only [run, hstep]
+    rw [run_polls c src rest d (j + 1) (by omega)]
+    congr 2
+    omega
+
+/-- **A later loader that finds a stale lock and no library** (the worst case for "bounded time": nobody
+else is alive to remove the lock) ends with the current version after exactly `K + 10` own steps, for
+every `K`: check, lock attempt, `K` polls that see the lock, the poll that gives up and removes it,
+re-check, lock, compile, rename, unlock, load.  With the loader's default (`defaultK = 33` polls = at most
+30.5 s, Timed.lean) plus the compile time this is the bound the `default` case of the check measures. -/
+theorem solo_recovery_steps (c : Cfg) (hv : c.variant = .recheck) (src : Nat) :
+    (run c (mkInit src none true 1)
+      ([(0, .check), (0, .tryLock)] ++ List.replicate c.K (0, Act.poll) ++
+       [(0, .poll), (0, .check), (0, .tryLock), (0, .compileBegin), (0, .compileFinish), (0, .rename), (0, .unlock), (0, .load)])).map
+      (fun s => (s.procs.map (·.pc), s.lock, s.lib))
+    = some ([.done (.ok src)], none, some ⟨src, true⟩) := by
+  have h0 : run c (mkInit src none true 1) [(0, .check), (0, .tryLock)] = some (soloWaiting src 0) := by
+    simp [run, step, mkInit, State.setProc, Fresh, soloWaiting]
+  have hsplit : ∀ (a b : List (Nat × Act)) (s t : State), run c s a = some t → run c s (a ++ b) = run c t b := by
+    intro a
+    induction a with
+    | nil => intro b s t h; simp [run] at h; subst h; rfl
+    | cons x xs ih =>
+      intro b s t h
+      obtain ⟨p, act⟩ := x
+      simp only [run, List.cons_append] at h ⊢
+      cases hs : step c s p act with
+      | none => rw [hs] at h; cases h
+      | some s' => rw [hs] at h; simp only; exact ih b s' t h
+  rw [List.append_assoc, hsplit _ _ _ _ h0, run_polls c src _ c.K 0 (by omega)]
+  simp [run, step, soloWaiting, State.setProc, hv, Fresh]
+
+example : ([(0, Act.check), (0, Act.tryLock)] ++ List.replicate defaultK (0, Act.poll) ++
+    [(0, Act.poll), (0, .check), (0, .tryLock), (0, .compileBegin), (0, .compileFinish), (0, .rename), (0, .unlock), (0, .load)]).length
+    = defaultK + 10 := by decide
 
 end TsVerif.C19
